@@ -298,6 +298,31 @@ def check_predictor(ctx, cfg, p, X, xq, st, info=None):
                 bad("column-form", "gradient(x_with_time_column) differs from gradient(x, time)", {"rows": xq.tolist()})
         except Exception as e:  # noqa
             bad("column-form|exception", "gradient(x_with_time_column) raises", {"rows": xq.tolist(), "exception": type(e).__name__})
+    # ---- many rows with a per-row time: row i of the result belongs to (x_i, t_i) also beyond any internal batch size
+    if is_time and not isinstance(p, MultiOutputColumn):
+        try:
+            kq = xq.shape[0]
+            idx = np.random.default_rng(1234).integers(0, kq, size=130)     # no period: a row never lines up with a shifted batch by construction
+            big = xq[idx]
+            g_big = meth("gradient", big, True)
+            H_big = meth("hessian", big, True)
+            st.evals += 2
+            for lo in (0, 60, 100):                   # rows from the start, the middle and beyond the first hundred
+                for i in range(lo, min(lo + 3 * kq, 130)):
+                    r = int(idx[i])
+                    gr, Hr = results[("many", True)][0][r], results[("many", True)][1][r]
+                    eg, eh = float(np.abs(g_big[i] - gr).max()), float(np.abs(H_big[i] - Hr).max())
+                    st.ratio("row-agreement", max(eg / refs[r]["round"][0], eh / refs[r]["round"][1]), keyb)
+                    if not (eg <= refs[r]["round"][0] and eh <= refs[r]["round"][1]):
+                        bad("row-agreement|many-rows", "row i of gradient / hessian evaluated among 130 rows with per-row times differs from the same row "
+                            "evaluated in a small batch", {"row": i, "x": big[i, :d].tolist(), "time": float(big[i, -1]),
+                                                              "gradient_difference": eg, "hessian_difference": eh,
+                                                              "allowed_error": [refs[r]["round"][0], refs[r]["round"][1]]})
+                        break
+        except KeyError:
+            pass
+        except Exception as e:  # noqa
+            bad("row-agreement|many-rows|%s" % type(e).__name__, "derivative methods raise on 130 rows", {"exception": "%s: %s" % (type(e).__name__, str(e)[:300])})
     # ---- derivatives follow the predictor's CURRENT state: after an in-place update of a public state attribute the
     #      jit=True result (possibly served from a compilation cache) must agree with the uncompiled one
     if hasattr(p, "copy") and not isinstance(p, MultiOutputColumn):
